@@ -1,5 +1,6 @@
 /-
-  C10/C11 — model of the syntax checker of src/cpp/pretty-format.c, with fix C10-13 applied:
+  C10/C11 — model of the syntax checker of src/cpp/pretty-format.c, with fixes C10-13 and C11-03
+  (the value left of a range is only scanned when the range is numeric) applied:
   `rtosc_skip_next_printed_arg`, `rtosc_count_printed_arg_vals`,
   `rtosc_count_printed_arg_vals_of_msg`.
 
@@ -48,13 +49,16 @@ def skipArrayElems (sk : ArgSkipper) : Nat → Option Bytes → Option Bytes →
         skipArrayElems sk loopFuel src2 (some src) arraytype' (skipped + r.skipped)
       else .ok (some src, skipped)
 
-/-- the first cell the scanner writes for the text at `s`
-    (`rtosc_scan_arg_val(s, &av, 1, NULL, &zero, 0, 0)` with a numeric type) -/
+/-- `rtosc_scan_arg_val(s, &av, 1, NULL, &zero, 0, 0)`: one value scanned into a local variable,
+    without a buffer for strings.  A string, symbol or non-empty blob is stored through the NULL
+    buffer, an array or "nx…" writes behind the variable: undefined behaviour (`Err.undef`). -/
 def scanOne (s : Bytes) : Res Cell := do
   let (_, cells) ← scanArgVal (s.length + 2) s [] 0 false
-  deref cells
-
-def numericRangeTypes : Bytes := lit "cihfdTF"
+  match cells with
+  | [.str _ _] => .error .undef
+  | [.blob d] => if d.isEmpty then .ok (.blob d) else .error .undef
+  | [c] => .ok c
+  | _ => .error .undef
 
 /-- what the `switch` of `rtosc_skip_next_printed_arg` leaves behind:
     `src` (NULL = none), `*skipped`, `*type`, `deltaless_range_type` -/
@@ -279,8 +283,8 @@ def ellipsisTail (sk : ArgSkipper) (oldSrc : Bytes) (sw : SwRes) (src2 : Bytes) 
               else if isRangeMultiplier ll0 then afterX ll0 else ll0
             | none => if isRangeMultiplier ll0 then afterX ll0 else ll0
           let rl ← sk ll1 0 none false insideBundle
-          if typesMatch rl.type lhstype then do
-            if !numericRangeTypes.contains lhstype then throw .undef     -- scanned with a NULL string buffer
+          -- fix C11-03: `numeric_range && types_match(llhstype, lhstype)`
+          if numericRange ∧ typesMatch rl.type lhstype then do
             let llc ← scanOne ll1
             let l ← match lhsarg with | some l => pure l | none => throw .undef
             if (← cmpCell llc l) = 0 then pure (true, some llc) else pure (false, some llc)
